@@ -81,6 +81,67 @@ func uList(k int) *Node {
 
 # unit name -> (variants of the source, call expression used by main)
 UNITS = {
+    "selfloop": (['''
+func uBuild(head *Node, n int) *Node {
+	for {
+		head = &Node{next: head}
+		n--
+		if n == 0 {
+			break
+		}
+	}
+	return head
+}
+func uSelfLoop() *Node { return uBuild(nil, 3) }
+''', '''
+func uChain(p *Node) *Node {
+	for {
+		p.next = &Node{next: p, val: p.val}
+		p = p.next
+		if oracle() {
+			break
+		}
+	}
+	return p
+}
+func uSelfLoop() *Node { v := 1; return uChain(&Node{val: &v}) }
+'''], "_ = uSelfLoop()"),
+    "backlink": (['''
+func backlink(a **Node) {
+	t := *a
+	t.next.next = t
+}
+func uBacklink() *Node {
+	y := &Node{}
+	x1 := &Node{next: y}
+	x2 := &Node{next: y}
+	a1 := &x1
+	a2 := &x2
+	a := a1
+	if oracle() {
+		a = a2
+	}
+	backlink(a)
+	return y.next
+}
+''', '''
+func relink(a *Pair) {
+	t := a.a
+	t.next.next = a.b
+	a.b.next = t
+}
+func uBacklink() *Node {
+	y := &Node{}
+	p1 := &Pair{a: &Node{next: y}, b: &Node{next: y}}
+	p2 := &Pair{a: &Node{next: y}, b: p1.a}
+	p := p1
+	if oracle() {
+		p = p2
+	}
+	relink(p)
+	return y.next
+}
+'''], "_ = uBacklink()"),
     "rec": (['''
 func walk(n *Node, d int) *Node {
 	if d == 0 || n == nil {
@@ -395,6 +456,7 @@ def gen_program(rnd):
     names = sorted(UNITS)
     rnd.shuffle(names)
     chosen = names[: rnd.randint(9, len(names))]
+    chosen += [n for n in ("selfloop", "backlink") if n not in chosen]   # shapes that need two passes / several representatives
     src = [PRELUDE]
     calls = ["_ = uList(3)"]
     picked = []
